@@ -705,7 +705,7 @@ Lemma step_memory s t s' e :
                    cs_heap s' = h' /\ cs_hdr s' = fupd (cs_hdr s) x sl'
   | LinReset _ x => cs_heap s' = cs_heap s /\ cs_hdr s' = fupd (cs_hdr s) x nil_slice
   | LinSnapshot _ x sl => cs_heap s' = cs_heap s /\ cs_hdr s' = cs_hdr s /\ sl = cs_hdr s x
-  | LinNone => cs_heap s' = cs_heap s /\ cs_hdr s' = cs_hdr s
+  | LinNone | LinStart _ _ => cs_heap s' = cs_heap s /\ cs_hdr s' = cs_hdr s
   end.
 Proof. intros ST. inversion ST; subst; cbn; auto. do 2 eexists. split; [eassumption|auto]. Qed.
 
@@ -714,7 +714,7 @@ Lemma step_hinv s t s' e :
   HInv s' /\ heap_ext (cs_heap s) (cs_heap s') /\
   (forall m, cabs s' m = lin_apply (cabs s) e m).
 Proof.
-  intros HI ST. pose proof (step_memory _ _ _ _ ST) as M. destruct e as [|t' x r|t' x|t' x sl].
+  intros HI ST. pose proof (step_memory _ _ _ _ ST) as M. destruct e as [|t' x r|t' x|t' x sl|t' o].
   - destruct M as [EH ED]. destruct s' as [h' hd' lk' th']. cbn in EH, ED. subst.
     split; [destruct HI; split; assumption|]. split; [apply heap_ext_refl|reflexivity].
   - destruct M as (h' & sl' & GA & EH & ED). destruct s' as [h2 hd2 lk2 th2]. cbn in EH, ED. subst.
@@ -727,6 +727,8 @@ Proof.
     destruct (String.eqb_spec m x) as [->|NE]; [rewrite fupd_same; reflexivity|].
     rewrite fupd_other by exact NE. reflexivity.
   - destruct M as [EH [ED _]]. destruct s' as [h' hd' lk' th']. cbn in EH, ED. subst.
+    split; [destruct HI; split; assumption|]. split; [apply heap_ext_refl|reflexivity].
+  - destruct M as [EH ED]. destruct s' as [h' hd' lk' th']. cbn in EH, ED. subst.
     split; [destruct HI; split; assumption|]. split; [apply heap_ext_refl|reflexivity].
 Qed.
 
@@ -788,7 +790,7 @@ Proof.
   destruct (step_hinv _ _ _ _ HI ST) as [HI' [EXT AB']].
   rewrite snaps_from_snoc. apply Forall_app. split.
   - eapply Forall_impl; [|exact IH]. intros x. apply snap_ok_ext. exact EXT.
-  - destruct e as [| | |t' x sl]; try constructor; [|constructor].
+  - destruct e as [| | |t' x sl|]; try constructor; [|constructor].
     pose proof (step_memory _ _ _ _ ST) as M. cbn beta iota in M. destruct M as [EH [ED ->]].
     cbn [snap_ok]. rewrite EH. split.
     + fold (replay tr). rewrite <- AB. reflexivity.
@@ -808,7 +810,7 @@ Theorem C05_prefix lg tr m :
 Proof.
   revert lg. induction tr as [|e tr IH]; intros lg NR; cbn [fold_left].
   - exists []. rewrite app_nil_r. reflexivity.
-  - destruct e as [|t x r|t x|t x sl]; cbn [resets_of] in NR; try (apply IH; exact NR).
+  - destruct e as [|t x r|t x|t x sl|t o]; cbn [resets_of] in NR; try (apply IH; exact NR).
     + destruct (IH (lin_apply lg (LinAppend t x r)) NR) as [more E]. rewrite E.
       cbn [lin_apply]. unfold log_set. destruct (String.eqb_spec m x) as [->|NE].
       * exists (r :: more). rewrite <- app_assoc. reflexivity.
